@@ -256,9 +256,9 @@ def run(tier, repo):
             next_ = 0
             for g, acts, ex in paths:
                 for i, a in enumerate(acts):
-                    if a.startswith("Extend") or a.startswith("Buf."):
+                    if a.startswith("Extend") or a.startswith("Buf.") or (a.startswith("SetBuf(") and "B0" in a and "D" in a):
                         next_ += 1
-                        guarded = any(x.startswith("!too_large[>=,10485760,saturating_add]") for x in g) or "Clear" in acts[:i]
+                        guarded = any(x == "!too_large[>=,10485760]" for x in g) or "Clear" in acts[:i]
                         rp.check(a == "Extend(record.data)" and guarded, "ALLOC", "defrag/%s" % "/".join(g), site(pr), "defragmenter buffer grows without the 10 MiB refusal check (or clear) before it on path [%s]" % ", ".join(g), found=list(acts),
                                  why_ok="append dominated by the size check or preceded by clear()")
             rp.floor("defrag_appends", next_, 1)
